@@ -15,7 +15,8 @@ CONTAINERS = {'W1': [('water', '40 mL')], 'W2': [('water', '25 mL'), ('tea', '15
               'W3': [('water', '40 mL'), ('nacl', '1 mmol')],
               # a solvent container that also holds an enzyme (activity units must not be mistaken for moles)
               'W4': [('water', '40 mL'), ('lipase', '25 U')]}
-LEVELS = {'dilute': F(30, 1000), 'medium': F(4, 1000), 'just-feasible': F(5, 100000), 'infeasible': F(-1, 1000)}  # L of solvent
+LEVELS = {'dilute': F(30, 1000), 'medium': F(4, 1000), 'just-feasible': F(5, 100000), 'infeasible': F(-1, 1000),  # L of solvent
+          'short-container': F(50, 1000)}     # a quarter more than a solvent container holds (feasible with a pure solvent)
 CONC_UNITS = {'solid': ['M', 'mM', 'm', 'mol/L', 'mmol/mL', 'g/L', 'g/mL', 'g/g', 'g/kg', 'mol/mol', 'mL/L', '%w/w', '%w/v',
                         'mg/10 mL', 'umol/10 uL'],
               'liquid': ['M', 'm', 'mol/L', 'g/L', 'g/g', 'mol/mol', 'L/L', 'mL/L', '%v/v', '%w/w', 'uL/10 mL', 'mL/g'],
